@@ -1,5 +1,7 @@
-"""C17: the aggregation and initialisation parts of the real MessagePassing.theoretical under contract.  calculate_H_tau (the per-motif update, which
-evaluates the automated equation) is used through an ASSUMED frame contract: it overwrites the one message (focal, motif id of the label) and nothing else."""
+"""C17: the real MessagePassing.theoretical (initialisation, sweep frame, aggregation) and the real per-motif update calculate_H_tau under contract: the update
+overwrites exactly the message (focal, motif id), with the motif equation evaluated on one product per non-focal member, that product running over the DISTINCT
+motif ids among the member's neighbours outside the motif (ghost: the order in which the set of outside neighbours is visited).  resolve_equation (the evaluator
+of C15) is used through an ASSUMED contract: a function of (phi, focal, label, products) that touches no message."""
 import ast, z3
 from vf.spec import *
 from vf.sym import Unsupported
@@ -49,10 +51,43 @@ def build(reg):
     m = reg.module("gcmpy/message_passing/message_passing.py")
     C = m.cls("MessagePassing", fields={"_MPM": MPM.ty, "_AE": AEt, "_H_tau": HT, "_iterations": INT, "_phi": REAL})
     FRAME = "self._MPM == old(self._MPM) and self._iterations == old(self._iterations)"
-    # ASSUMED frame contract of the per-motif update (not in the list of verified functions)
-    m.fn("MessagePassing.calculate_H_tau", params={"focal": INT, "label": Label},
+    # ---- the per-motif update, on the real source.  ASSUMED: resolve_equation (the evaluator of C15) returns a function of (phi, focal, label, prods) and touches no message
+    PR = DictT(INT, REAL); ENT = ArrT(INT, LInt)
+    RES = z3.Function("resolve_equation", z3.RealSort(), z3.IntSort(), Label.sort(), PR.sort(), z3.RealSort())
+    NS["resolve"] = dict(smt=lambda ex, phi, f, l, pr: Val(REAL, RES(phi.z, f.z, l.z, pr.z)), rt=None)
+    MIDL = "mid(label(G, j, L[n - 1]))"
+    reg.specfun("seenL", [("G", Gt), ("j", INT), ("L", LInt), ("m", INT), ("n", INT)], BOOL, base="False", rec=f"seenL(G, j, L, m, n - 1) or {MIDL} == m")
+    reg.specfun("mprodL", [("H", HT), ("G", Gt), ("j", INT), ("L", LInt), ("n", INT)], REAL, base="1.0",
+                rec=f"mprodL(H, G, j, L, n - 1) if seenL(G, j, L, {MIDL}, n - 1) else mprodL(H, G, j, L, n - 1) * H[(j, {MIDL})]")
+    m.fn("MessagePassing.resolve_equation", params={"focal": INT, "label": Label, "prods": PR}, ret=REAL,
+         ensures={"value": "result == resolve(self._phi, focal, label, prods)", "frame": FRAME + " and self._phi == old(self._phi) and self._H_tau == old(self._H_tau)"})
+    # en[j]: the (ghost) order in which the outside neighbours of member j were visited, ix[j][x]: the position of x in it; OUTSIDE(x, j): x is a neighbour of j and not a member of this motif
+    G0 = "self._MPM._G"; V = "verts(label)"
+    def OUTSIDE(x, j): return f"(exists(na, 0, len(nbrs({G0}, {j})), nbrs({G0}, {j})[na] == {x}) and not exists(vb, 0, len({V}), {V}[vb] == {x}))"
+    def per_member(n, body, trig=None): return f"forall(q, 0, {n}, implies({V}[q] != focal, {body}), trigger={V}[q])"
+    VALUE = lambda n: per_member(n, f"({V}[q] in prods) and prods[{V}[q]] == mprodL(old(self._H_tau), {G0}, {V}[q], en[{V}[q]], len(en[{V}[q]]))")
+    E_IN = lambda n: per_member(n, f"forall(a, 0, len(en[{V}[q]]), {OUTSIDE(f'en[{V}[q]][a]', f'{V}[q]')}, trigger=en[{V}[q]][a])")
+    E_DIST = lambda n: per_member(n, f"forall(a, 0, len(en[{V}[q]]), ix[{V}[q]][en[{V}[q]][a]] == a, trigger=en[{V}[q]][a])")
+    E_ALL = lambda n: per_member(n, f"forall_elem(x, Int, implies({OUTSIDE('x', f'{V}[q]')}, 0 <= ix[{V}[q]][x] and ix[{V}[q]][x] < len(en[{V}[q]]) and en[{V}[q]][ix[{V}[q]][x]] == x))")
+    KEYS_ = lambda n: f"forall_elem(x, Int, implies(x in prods, exists(q, 0, {n}, {V}[q] == x)))"      # (an entry for the focal vertex itself would be ignored by the evaluator: not demanded absent)
+    UNCH = "self._H_tau == old(self._H_tau) and self._phi == old(self._phi) and " + FRAME
+    MEMBERS = lambda n: {"value": VALUE(n), "visited_are_outside_neighbours": E_IN(n), "each_visited_once": E_DIST(n), "every_outside_neighbour_visited": E_ALL(n), "keys": KEYS_(n)}
+    CTX = f"motif_ID == mid(label) and vertices_in_motif == {V}"
+    m.fn("MessagePassing.calculate_H_tau", params={"focal": INT, "label": Label, "en": ENT, "ix": ArrT(INT, ArrT(INT, INT))}, ghost=["en", "ix"], opaque_arith=True,
+         locals={"prods": PR, "done_motifs": SetT(INT), "js_neighbours": SetT(INT)},
          ensures={"overwrites_one_message": "forall_elem(k, Pair, implies(k != (focal, mid(label)), ((k in self._H_tau) == (k in old(self._H_tau))) and self._H_tau[k] == old(self._H_tau)[k])) and ((focal, mid(label)) in self._H_tau)",
-                  "frame": FRAME + " and self._phi == old(self._phi)"})
+                  "frame": FRAME + " and self._phi == old(self._phi)",
+                  "message_is_the_motif_equation_on_the_member_products": "self._H_tau[(focal, mid(label))] == resolve(self._phi, focal, label, prods)",
+                  **{"member_products." + k_: v_ for k_, v_ in MEMBERS(f"len({V})").items()}},
+         raises={"KeyError": dict(when="True", only=False)},
+         loops={0: dict(snap={"ELEMS": V, "ELEMIDX": "ix[0]"}, inv={**MEMBERS("IT"), "unchanged": UNCH, "ctx": CTX},
+                        head_snap={"Q": "IT"},
+                        end_hints={"in": f"implies(j != focal, forall(a, 0, len(ELEMS), {OUTSIDE('ELEMS[a]', 'j')}, trigger=ELEMS[a]))",
+                                   "once": "implies(j != focal, forall(a, 0, len(ELEMS), ELEMIDX[ELEMS[a]] == a, trigger=ELEMS[a]))",
+                                   "all": f"implies(j != focal, forall_elem(x, Int, implies({OUTSIDE('x', 'j')}, 0 <= ELEMIDX[x] and ELEMIDX[x] < len(ELEMS) and ELEMS[ELEMIDX[x]] == x)))"},
+                        ghost_end=["en[j] = (ELEMS if j != focal else en[j])", "ix[j] = (ELEMIDX if j != focal else ix[j])"]),
+                1: dict(inv={"prod": f"prod_j == mprodL(self._H_tau, {G0}, j, ELEMS, IT)", "done": f"forall_elem(x, Int, (x in done_motifs) == seenL({G0}, j, ELEMS, x, IT))",
+                             **MEMBERS("Q"), "unchanged": UNCH, "ctx": CTX + f" and 0 <= Q and Q < len({V}) and j == {V}[Q]"})})
     G_ = "self._MPM._G"
     INITD = f"forall(e, 0, {{n}}, forall(q, 0, len(verts(label({G_}, es({G_})[e][0], es({G_})[e][1]))), (verts(label({G_}, es({G_})[e][0], es({G_})[e][1]))[q], mid(label({G_}, es({G_})[e][0], es({G_})[e][1]))) in self._H_tau, trigger=verts(label({G_}, es({G_})[e][0], es({G_})[e][1]))[q]), trigger=es({G_})[e])"
     WELL = (f"forall(e, 0, len(es({G_})), exists(q, 0, len(verts(label({G_}, es({G_})[e][0], es({G_})[e][1]))), verts(label({G_}, es({G_})[e][0], es({G_})[e][1]))[q] == es({G_})[e][0]) and "
@@ -70,4 +105,4 @@ def build(reg):
                 4: dict(inv={"sum": f"outer_sum == osum(self._H_tau, {G_}, IT)", "frame": FRAME + " and self._H_tau == H_fin"}, snap={"H_fin": "self._H_tau"}, head_snap={"A": "IT"}),
                 5: dict(inv={"prod": f"prod == mprod(self._H_tau, {G_}, i, IT)", "done": f"forall_elem(x, Int, (x in done_motifs) == seen({G_}, i, x, IT))",
                              "ctx": f"0 <= A and A < len(nodes({G_})) and i == nodes({G_})[A] and outer_sum == osum(self._H_tau, {G_}, A)", "frame": FRAME + " and self._H_tau == H_fin"})})
-    return ["MessagePassing.theoretical"]
+    return ["MessagePassing.calculate_H_tau", "MessagePassing.theoretical"]
